@@ -96,7 +96,12 @@ func ConstructMessageFromUnits(
 
 	merkleRoot, merkleTree := merkle.New(shards)
 
-	messageRoot := units[0].MessageRoot
+	// units is indexed by shard position and may be sparse: any received unit carries the root.
+	firstUnit := firstNonNilUnit(units)
+	if firstUnit == nil {
+		return nil, nil, merkle.Proof{}, errors.New("no propeller units to decode")
+	}
+	messageRoot := firstUnit.MessageRoot
 	expectedRoot := MessageRoot(merkleRoot)
 	if messageRoot != expectedRoot {
 		// todo(rdr): probably need to write string methods for the MessageRoot type
@@ -123,4 +128,14 @@ func ConstructMessageFromUnits(
 	localProof := merkleTree[localShardIndex]
 
 	return message, localShard, localProof, nil
+}
+
+// firstNonNilUnit returns the first unit present in a (possibly sparse) slice of units.
+func firstNonNilUnit(units []*Unit) *Unit {
+	for _, unit := range units {
+		if unit != nil {
+			return unit
+		}
+	}
+	return nil
 }
